@@ -304,7 +304,7 @@ class FuzzyWeightedUnion(SameArrayShapeMixin, Command):
         for weight, arr in zip(weights[1:], arrays[1:]):
             result += arr * weight
 
-        result /= sum(weights)
+        result = result / sum(weights)
 
         return insure_fuzzy(result, FUZZY_MIN, FUZZY_MAX)
 
